@@ -170,12 +170,14 @@ class HttpParser:
         nb_parsed = 0
         while True:
             if not self.__on_firstline:
+                # search the carried-over bytes too: the CRLF may straddle two reads
+                data = b''.join(self._buf) + data
                 idx = data.find(b'\r\n')
                 if idx < 0:
-                    self._buf.append(data)
-                    return len(data)
+                    self._buf = [data]
+                    return length
                 self.__on_firstline = True
-                self._buf.append(data[:idx])
+                self._buf = [data[:idx]]
                 first_line = b''.join(self._buf)
                 first_line = str(first_line, 'unicode_escape')
                 nb_parsed = nb_parsed + idx + 2
